@@ -433,4 +433,82 @@ theorem w_matches (re : Bytes) (nc : Bool) (va : Val) (ha : ValOk .str va) :
   · have h2 : isU (encSS a) = false := isUndef_encSS a
     simp [toVm, h1, h2, matchWord, decRe_encRe, decSS_encSS, vMatches]
 
+/-! ### words that are only exact up to truth (the short-circuit `or` leaves its left operand's raw value) -/
+
+/-- the word pushed for an expression: the value's word, or — for a boolean-typed expression that is true —
+    any defined non-zero word -/
+def WordOK (t : Ty) (v : Val) (w : Int) : Prop :=
+  w = toVm v ∨ (t = .bool ∧ v = .bool true ∧ isU w = false ∧ w ≠ 0)
+
+/-- the word represents the value as a truth value: UNDEF / 0 / non-zero -/
+def TruthWord (v : Val) (w : Int) : Prop :=
+  (v = .undef → w = UNDEF) ∧ (v ≠ .undef → isU w = false ∧ (w != 0) = asBool v)
+
+theorem WordOK.exact {t : Ty} {v : Val} {w : Int} (h : WordOK t v w) (ht : t ≠ .bool) : w = toVm v := by
+  rcases h with h | ⟨h, _⟩
+  · exact h
+  · exact absurd h ht
+
+theorem truthWord_boolpos (blocks : List (Nat × Bytes)) (t : Ty) (v : Val) (w : Int) (hv : ValOk t v)
+    (h : WordOK t v w) : TruthWord v (boolWord blocks t w) := by
+  rcases h with rfl | ⟨rfl, rfl, hu, hz⟩
+  · exact boolWord_spec blocks t v hv
+  · refine ⟨fun h => (by cases h), fun _ => ?_⟩
+    have hb : boolWord blocks .bool w = w := by simp [boolWord]
+    rw [hb]
+    exact ⟨hu, by simp [asBool, truthy, hz]⟩
+
+theorem tw_truth {v : Val} {w : Int} (h : TruthWord v w) : (!isU w && w != 0) = asBool v := by
+  by_cases hv : v = .undef
+  · subst hv
+    rw [h.1 rfl]; decide
+  · obtain ⟨h1, h2⟩ := h.2 hv
+    simp [h1, h2]
+
+theorem tw_not (prim : String → List Int → Int) {v : Val} {w : Int} (h : TruthWord v w) :
+    vmUn prim .OP_NOT w = toVm (vNot v) := by
+  by_cases hv : v = .undef
+  · subst hv
+    rw [h.1 rfl]
+    simp [vmUn, isUndef_UNDEF, vNot, truthy, toVm]
+  · obtain ⟨h1, h2⟩ := h.2 hv
+    have ht : truthy v = some (asBool v) := by
+      cases v <;> simp_all [truthy, asBool]
+    rw [show toVm (vNot v) = b2i (!asBool v) from by simp [vNot, ht, toVm]]
+    simp only [isU] at h1
+    simp only [vmUn, h1]
+    rw [← h2]
+    by_cases hw : w = 0 <;> simp [hw, bne, int_beq]
+
+theorem tw_defined (prim : String → List Int → Int) {v : Val} {w : Int} (h : TruthWord v w) :
+    vmUn prim .OP_DEFINED w = toVm (vDefined v) := by
+  by_cases hv : v = .undef
+  · subst hv
+    rw [h.1 rfl]
+    simp [vmUn, isUndef_UNDEF, vDefined, Val.isUndef, toVm, b2i]
+  · obtain ⟨h1, _⟩ := h.2 hv
+    have : v.isUndef = false := by cases v <;> simp_all [Val.isUndef]
+    rw [show toVm (vDefined v) = 1 from by simp [vDefined, this, toVm, b2i]]
+    simp only [isU] at h1
+    simp [vmUn, h1, b2i]
+
+/-- what OP_ITER_CONDITION makes of a body word: undefined stays, everything else becomes 0 / 1 -/
+def nbWord (v : Val) : Int := if v.isUndef then UNDEF else b2i (asBool v)
+
+theorem tw_norm {v : Val} {w : Int} (h : TruthWord v w) : normW w = nbWord v := by
+  by_cases hv : v = .undef
+  · subst hv
+    rw [h.1 rfl]; decide
+  · obtain ⟨h1, h2⟩ := h.2 hv
+    have : v.isUndef = false := by cases v <;> simp_all [Val.isUndef]
+    simp [normW, nbWord, h1, h2, this]
+
+theorem nbWord_cases (v : Val) : (nbWord v = 0 ∨ nbWord v = 1 ∨ nbWord v = UNDEF) ∧ ((nbWord v == 1) = asBool v) := by
+  unfold nbWord
+  cases hu : v.isUndef
+  · cases hb : asBool v <;> simp [b2i]
+  · have : v = .undef := by cases v <;> simp_all [Val.isUndef]
+    subst this
+    simp; decide
+
 end YaraModel.CondCompile
